@@ -430,6 +430,15 @@ def rnd_minor(rng, regime):
     return (q, e, i, om, w, norm_jde(tp)), norm_jde(norm_jde(tp) + dt)
 
 
+def size(ctx, quick, thorough, dense=None):
+    """sample count: when the source fingerprint of a modelled function changed (ctx.scale > 1) the quick tier
+    switches to the densest enumeration that still fits in 2-3 minutes (`dense`, default: the thorough count),
+    whatever the scale; otherwise the tier's own count"""
+    if ctx.tier == 'quick' and ctx.scale > 1:
+        return max(1, dense if dense is not None else thorough)
+    return ctx.n(quick, thorough)
+
+
 # ------------------------------------------------------------------ generator
 def generate(ctx, shard=0, nshards=1):
     from pymeeus.Coordinates import kepler_equation, ecliptical2equatorial
@@ -455,7 +464,7 @@ def generate(ctx, shard=0, nshards=1):
         for d in (364.0, 364.9, 365.0, 365.1, 366.0):
             check(ctx, 'pluto_domain', [norm_jde(j2099 + d)], 'pluto_domain/range_end')
     # --- planets
-    n = max(1, ctx.n(560, 8000) // nshards)
+    n = max(1, size(ctx, 560, 8000) // nshards)
     for k in range(n):
         planet = PLANETS[k % len(PLANETS)]
         u = rng.random()
@@ -469,13 +478,13 @@ def generate(ctx, shard=0, nshards=1):
     # --- greatest elongations of the inferior planets: daily steps over a run of days (interleaved by shard)
     for planet, per in (('Mercury', 116), ('Venus', 584)):
         start = norm_jde(rng.uniform(lo, hi - 3 * per))
-        span = ctx.n(2 * per, 12 * per)
+        span = size(ctx, 2 * per, 12 * per)
         stride = 1 if planet == 'Mercury' else 3
         for d in range(shard * stride, span, stride * nshards):
             check(ctx, 'elongation_planet', [planet, norm_jde(start + d)], 'elongation_planet/' + planet + '/daily')
     # --- Pluto
     plo, phi = R['pluto']
-    for k in range(max(1, ctx.n(240, 4000) // nshards)):
+    for k in range(max(1, size(ctx, 240, 4000) // nshards)):
         u = rng.random()
         if u < 0.15:
             j = rng.choice([plo, phi]) + rng.uniform(-2, 2) * 365.25      # around the ends: inside and outside
@@ -491,7 +500,7 @@ def generate(ctx, shard=0, nshards=1):
             if k % 4 == 0:
                 check(ctx, 'epoch_not_shifted', ['Pluto', j], 'epoch_not_shifted/pluto')
     # --- minor bodies in the three regimes
-    for k in range(max(1, ctx.n(480, 8000) // nshards)):
+    for k in range(max(1, size(ctx, 480, 8000) // nshards)):
         regime = ('elliptic', 'near_parabolic', 'parabolic')[k % 3]
         elems, j = rnd_minor(rng, regime)
         tie_minor(ctx, elems, j, regime)
@@ -500,7 +509,7 @@ def generate(ctx, shard=0, nshards=1):
         if k % 4 == 0:
             check(ctx, 'epoch_not_shifted', ['Minor', j] + list(elems), 'epoch_not_shifted/minor')
     # --- minor bodies near conjunction / opposition (low inclination: the elongation reaches 0 and 180)
-    for k in range(max(1, ctx.n(16, 160) // nshards)):
+    for k in range(max(1, size(ctx, 16, 160) // nshards)):
         q = rng.choice([0.3, 0.8, 1.8, 2.5, 5.0])
         e = rng.choice([0.05, 0.3, 0.6, 0.9, 0.99, 1.0])
         inc = rng.choice([0.0, 0.0, 180.0, 0.3])
@@ -518,7 +527,7 @@ def generate(ctx, shard=0, nshards=1):
                 check(ctx, 'elongation_minor', list(elems) + [jj], 'elongation_minor/syzygy')
                 tie_minor(ctx, elems, jj, 'syzygy')
     # --- kepler_equation, ecliptical2equatorial, Epoch operations
-    for k in range(max(1, ctx.n(320, 4000) // nshards)):
+    for k in range(max(1, size(ctx, 320, 4000) // nshards)):
         ecc = rng.choice([0.0, rng.random(), rng.random() * 0.98, 0.97, 0.9799, 0.999, 0.1])
         m = rng.choice([0.0, 180.0, 360.0, rng.uniform(-720, 720), rng.uniform(0, 360), 179.99999999999997, -1e-12])
         ma = Angle(m)
